@@ -122,7 +122,10 @@ func c10Cases() []c10Case {
 		{"create-struct", func(db *gorm.DB, p *Perm) *gorm.DB { return db.Create(p) }, nil},
 		{"create-slice", func(db *gorm.DB, p *Perm) *gorm.DB { q := c10Full("q"); return db.Create(&[]Perm{*p, q}) }, nil},
 		{"create-slice-ptr", func(db *gorm.DB, p *Perm) *gorm.DB { q := c10Full("q"); return db.Create(&[]*Perm{p, &q}) }, nil},
-		{"create-batches", func(db *gorm.DB, p *Perm) *gorm.DB { q := c10Full("q"); return db.CreateInBatches(&[]Perm{*p, q, q}, 2) }, nil},
+		{"create-batches", func(db *gorm.DB, p *Perm) *gorm.DB {
+			q := c10Full("q")
+			return db.CreateInBatches(&[]Perm{*p, q, q}, 2)
+		}, nil},
 		{"create-map", func(db *gorm.DB, p *Perm) *gorm.DB { return db.Model(&Perm{}).Create(allMap) }, nil},
 		{"create-maps", func(db *gorm.DB, p *Perm) *gorm.DB {
 			return db.Model(&Perm{}).Create([]map[string]interface{}{allMap, {"plain": "b", "ReadOnly": 2}})
@@ -148,7 +151,9 @@ func c10Cases() []c10Case {
 		{"updates-struct-ptr-self", func(db *gorm.DB, p *Perm) *gorm.DB { p.ID = 5; return db.Updates(p) },
 			func(p *Perm) []string { return append(nz(p), "updatedat") }},
 		{"updates-map", func(db *gorm.DB, p *Perm) *gorm.DB { return db.Model(&Perm{ID: 5}).Updates(allMap) },
-			func(p *Perm) []string { return []string{"writeonly", "nomig", "num", "plain", "stamp", "updateonly", "updatedat"} }},
+			func(p *Perm) []string {
+				return []string{"writeonly", "nomig", "num", "plain", "stamp", "updateonly", "updatedat"}
+			}},
 		{"update-single-zero", func(db *gorm.DB, p *Perm) *gorm.DB { return db.Model(&Perm{ID: 5}).Update("num", 0) },
 			func(p *Perm) []string { return []string{"num", "updatedat"} }},
 		{"update-denied-column", func(db *gorm.DB, p *Perm) *gorm.DB { return db.Model(&Perm{ID: 5}).Update("createonly", 1) }, nil},
@@ -158,9 +163,13 @@ func c10Cases() []c10Case {
 			func(p *Perm) []string { return nz(p) }},
 		{"update-columns-map", func(db *gorm.DB, p *Perm) *gorm.DB { return db.Model(&Perm{ID: 5}).UpdateColumns(allMap) },
 			func(p *Perm) []string { return []string{"writeonly", "nomig", "num", "plain", "stamp", "updateonly"} }},
-		{"updates-struct-select", func(db *gorm.DB, p *Perm) *gorm.DB { return db.Model(&Perm{ID: 5}).Select("plain", "CreateOnly", "num").Updates(*p) },
+		{"updates-struct-select", func(db *gorm.DB, p *Perm) *gorm.DB {
+			return db.Model(&Perm{ID: 5}).Select("plain", "CreateOnly", "num").Updates(*p)
+		},
 			func(p *Perm) []string { return []string{"plain", "num", "updatedat"} }},
-		{"updates-struct-omit", func(db *gorm.DB, p *Perm) *gorm.DB { return db.Model(&Perm{ID: 5}).Omit("num", "UpdatedAt").Updates(*p) },
+		{"updates-struct-omit", func(db *gorm.DB, p *Perm) *gorm.DB {
+			return db.Model(&Perm{ID: 5}).Omit("num", "UpdatedAt").Updates(*p)
+		},
 			func(p *Perm) []string {
 				var r []string
 				for _, c := range nz(p) {
@@ -170,8 +179,12 @@ func c10Cases() []c10Case {
 				}
 				return r
 			}},
-		{"updates-struct-select-star-omit", func(db *gorm.DB, p *Perm) *gorm.DB { return db.Model(&Perm{ID: 5}).Select("*").Omit("plain").Updates(*p) },
-			func(p *Perm) []string { return []string{"id", "num", "updateonly", "writeonly", "nomig", "stamp", "createdat", "updatedat"} }},
+		{"updates-struct-select-star-omit", func(db *gorm.DB, p *Perm) *gorm.DB {
+			return db.Model(&Perm{ID: 5}).Select("*").Omit("plain").Updates(*p)
+		},
+			func(p *Perm) []string {
+				return []string{"id", "num", "updateonly", "writeonly", "nomig", "stamp", "createdat", "updatedat"}
+			}},
 		{"update-columns-select-stale-time", func(db *gorm.DB, p *Perm) *gorm.DB {
 			q := *p
 			q.UpdatedAt = time.Unix(1000, 0)
